@@ -657,6 +657,44 @@ def scenario_tx_cache_race(res, seed, variant):
         wrap_transport(s, w)
         bh = big.height
         h.log(f'block {bh} has {len(big.txs)} txs')
+        if variant == 2:
+            # the TSC flavour that asks the daemon for the raw transaction: the request is parked at the
+            # DAEMON (the reply was produced in time but reaches the server late) while the block is replaced
+            from electrumx.lib.hash import hash_to_hex_str as hx
+            gate, parked = asyncio.Event(), []
+            orig_raw = d.getrawtransaction
+
+            async def gated(hex_hash, verbose=False):
+                r = await orig_raw(hex_hash, verbose)
+                parked.append(hex_hash)
+                await gate.wait()
+                return r
+            d.getrawtransaction = gated
+            h.client(0, 'blockchain.transaction.get_tsc_merkle', [hx(big.txs[9].txid), bh, 'tx', 'block_header'], ('q',))
+            for _ in range(40):
+                w.settle(1)
+                if parked:
+                    break
+            if not parked:
+                return [('harness', 'the TSC request never asked the daemon for the raw transaction')], h
+            b = d.tip.chain()[bh - 1]
+            b = h.gen.new_block(b, max_txs=215, min_txs=205)
+            for _ in range(3):
+                b = h.gen.new_block(b, max_txs=2)
+            d.switch(b)
+            h.log(f'daemon reorg depth 3 -> height {b.height}: block {bh} replaced by another block of '
+                  f'{len(b.chain()[bh].txs)} txs while a get_tsc_merkle(.., "tx", ..) request waits for the daemon')
+            for _ in range(8):
+                w.settle(2)
+                if w.quiescent():
+                    break
+            gate.set()
+            d.getrawtransaction = orig_raw
+            w.settle(2)
+            res.bump('tx_cache_race_scenarios')
+            res.bump('tsc_parked_at_daemon_scenarios')
+            h.judge('tsc-parked-at-daemon')
+            return h.fails, h
         if variant == 0:
             h.client(0, 'blockchain.transaction.id_from_pos', [bh, 7, True], ('q',))
         else:
@@ -729,7 +767,7 @@ def _run(tier, seed, want, name):
         scenarios += [('query_unflushed_height', scenario_query_unflushed_height)]
     if scenarios:
         for scen, fn in scenarios:
-            for variant in (0, 1):
+            for variant in ((0, 1, 2) if scen == 'tx_cache_race' else (0, 1)):
                 fails, h = fn(res, seed, variant)
                 res.note_case(f'{scen} {variant}', True)
                 for f in fails:
